@@ -109,6 +109,8 @@ var ledgerSpecs = []ledgerSpec{
 			{"two-nodes+overdraw+truncate", ledger.Cfg{Nodes: []string{"G", "N1"}, Supply: sp(10, 0), Menu: []ledger.TxSpec{t1, t2, t3}, Crafted: []ledger.TxSpec{mx}, Truncate: true, Props: only("C01")}, d, 0, 0},
 			{"trusted-sealer", ledger.Cfg{Nodes: []string{"G"}, Supply: sp(10, 0), Menu: []ledger.TxSpec{t1, t3}, Crafted: []ledger.TxSpec{mx}, TrustedCraf: []ledger.TxSpec{my}, Props: only("C01")}, d, 0, 0},
 			{"carry-borrow-amounts", ledger.Cfg{Nodes: []string{"G"}, Supply: sp(1, 0), Menu: []ledger.TxSpec{t6, t7, tx("t7b", "R", "A", 0, 2)}, Props: only("C01")}, d, 0, 0},
+			// a wallet pays itself (income and spending at once), then tries to spend more than it holds (A holds 6, pays itself 5 / 20, pays B 9)
+			{"self-payment", ledger.Cfg{Nodes: []string{"G"}, Supply: sp(10, 0), Menu: []ledger.TxSpec{t1, tx("sp5", "A", "A", 5, 0), tx("sp20", "A", "A", 20, 0), tx("sb9", "A", "B", 9, 0), t7}, Props: only("C01")}, d, 0, 0},
 			// a crafted vertex built on the node's tips arrives in a call whose caller goes away, over an overdrawing tentative tip
 			{"cancelled-delivery-over-overdrawing-tip", ledger.Cfg{Nodes: []string{"G"}, Supply: sp(10, 0), Menu: []ledger.TxSpec{t1, t3, tx("t3b", "A", "B", 5, 0)},
 				Crafted: []ledger.TxSpec{cfl("xf")}, DeliverCancel: []int{0, 1, 2, 3}, Props: only("C01")}, d - 1, 0, 0},
@@ -244,6 +246,9 @@ var ledgerSpecs = []ledgerSpec{
 			{"cancelled-proposals", ledger.Cfg{Nodes: []string{"G"}, Supply: sp(10, 0), Menu: []ledger.TxSpec{t1, t3, t7, mx}, ProposeCancel: []int{0, 1, 2}, Props: only("C09")}, d, 0, 0},
 			// gossip deliveries whose caller goes away, followed by the ordinary delivery of the same vertex
 			{"cancelled-deliveries", ledger.Cfg{Nodes: []string{"G", "N1"}, Supply: sp(10, 0), Menu: []ledger.TxSpec{t1, t3, t7}, MaxProposeNodes: 1, DeliverCancel: []int{0, 1, 2}, Tick: true, Props: only("C09")}, d, 0, 0},
+			// a node that joins by syncing from a (possibly truncated) peer: if it ends marked as loaded, the invariant holds on it too
+			{"joined-from-truncated-source", ledger.Cfg{Nodes: []string{"G"}, Spare: "N2", Sync: true, Supply: sp(10, 0), Menu: []ledger.TxSpec{t1, t3}, Truncate: true,
+				Prefix: []string{"P:0:p1", "P:0:p2", "P:0:p3", "P:0:p4"}, Props: only("C09")}, 3, 2, 4},
 			// data-only vertices and transfers mixed, truncated from a non-initial history
 			{"contracts+transfers+truncate", ledger.Cfg{Nodes: []string{"G"}, Supply: sp(10, 0), Menu: []ledger.TxSpec{t1, t3, {Label: "cx", From: "R", To: "B", Data: "d"}, {Label: "cy", From: "A", To: "B", Data: "d"}},
 				Truncate: true, Prefix: []string{"P:0:c1", "P:0:p1", "P:0:c2"}, Props: only("C09")}, d, 0, 0},
